@@ -497,6 +497,45 @@ fn gen_nr(thorough: bool, rng: &mut Rng) -> Result<(), String> {
                 emit_case(&format!("nr/{}/other-state", run), &rd, &rc, &req, &holders[hi], &p.proof, &p.ctape, &nonce, &valid0, &reg0, &r3, false, "other_registry_state", None);
             }
         }
+        // (a') degenerate key: a G1 generator of the revocation key replaced by the identity, in the text form and in the
+        //      byte form a binary format carries (the visitor takes a byte sequence inside JSON too). Either the key is
+        //      refused, or two presentations made with it must still share no c-list entry (with htilde = 1 the
+        //      "randomised" A = sigma + rho*htilde and G = g_i + r*htilde would be the credential's own values)
+        {
+            let mut idb = vec![0u8; 128];
+            idb[0] = 4;
+            idb[64] = 1;
+            let id_text = vf::PointG1::new_inf().and_then(|p| p.to_string()).unwrap_or_default();
+            for gname in ["htilde", "h", "g"] {
+                for (form, val) in [("bytes", json!(idb)), ("text", json!(id_text))] {
+                    let mut pkj = jv(&cd.pk);
+                    pkj["r_key"][gname] = val;
+                    let mut oracles = vec![];
+                    let outcome = match guard(|| from_jv::<CredentialPublicKey>(&pkj)) {
+                        Out::Ok(pk2) => {
+                            let rd2 = RevDef { cd: CredDef { pk: pk2, sk: from_jv(&jv(&cd.sk))?, kcp: from_jv(&jv(&cd.kcp))?, attrs: cd.attrs.clone(), non_attrs: cd.non_attrs.clone(),
+                                                             schema: cd.schema.clone(), non_schema: cd.non_schema.clone() }, exps: rd.exps.clone() };
+                            match (guard(|| build_proof(&rd2, &holders[0], &req, Some(&reg1), &nonce)),
+                                   guard(|| build_proof(&rd2, &holders[0], &req, Some(&reg1), &nonce))) {
+                                (Out::Ok(p1), Out::Ok(p2)) => {
+                                    let (c1, c2) = (&p1.proof["proofs"][0]["non_revoc_proof"]["c_list"], &p2.proof["proofs"][0]["non_revoc_proof"]["c_list"]);
+                                    let same: Vec<&str> = ["e", "d", "a", "g", "w", "s", "u"].iter().cloned().filter(|f| !c1[*f].is_null() && c1[*f] == c2[*f]).collect();
+                                    if !same.is_empty() {
+                                        oracles.push(json!({"name":"proofs_unlinkable","ok":false,"detail":format!("a revocation key whose generator {} is the identity ({} form) was loaded, and two presentations of one credential made with it share the c-list entries {:?}", gname, form, same)}));
+                                    }
+                                    "loaded, two proofs built"
+                                }
+                                _ => "loaded, prover refused",
+                            }
+                        }
+                        Out::Err(_) => "refused",
+                        Out::Panic(_) => "panic",
+                    };
+                    emit(&json!({"id": format!("nr/{}/identity-{}-{}", run, gname, form), "op": "blind_oracles", "in": {}, "impl": {"oracles": oracles, "outcome": outcome},
+                        "class": {"kind": "degenerate_key", "generator": gname, "form": form, "outcome": outcome}}));
+                }
+            }
+        }
         // (b) revoked holder with its last witness
         {
             let p = build_proof(&rd, &holders[1], &req, Some(&reg1), &nonce)?;
